@@ -54,10 +54,13 @@ RULE = ("file: exhaustive entry lists over the alphabet {a,+,#,LF,CR,U+2028,NUL,
         "which the consumer takes at least one step")
 EXHAUSTIVE = True
 EXHAUSTIVE_SCOPE = {
-    "quick": "file: 1 entry len<=3, 2 entries len<=1, raw files len<=3 over 8 byte symbols; "
-             "th: all schedules of enabled steps up to depth 9 from 3 initial stores, <=1 concurrent append",
-    "thorough": "file: 1 entry len<=4, 2 entries len<=2, 3 entries len<=1, raw files len<=4 over 9 byte symbols; "
-                "th: all schedules up to depth 12 from 4 initial stores, <=1 concurrent append; depth 10 with 2 appends",
+    "quick": "file: 1 entry len<=2 (len 3 sampled), 2 entries len<=1, raw files len<=2 over 9 byte symbols (len 3 "
+             "sampled), every truncation offset of each; th: ALL complete loader/consumer interleavings without "
+             "appends for stores of 0, 1 and 2 items; all schedules with one concurrent append up to depth 7-8",
+    "thorough": "file: 1 entry len<=4, 2 entries len<=2, 3 entries len<=1, raw files len<=4 over 9 byte symbols, "
+                "every truncation offset of each; th: ALL complete interleavings without appends for stores of "
+                "0..3 items (with a second load() for 0-1 items); all schedules up to depth 12 with one "
+                "concurrent append from 3 initial stores; depth 10 with two appends",
 }
 TRUSTED = ["harness/c13.py compares file bytes after every append, the loaded lists at every truncation offset, "
            "and (strs, loaded, yielded items, events, store, program counters) after every scheduled step",
@@ -524,16 +527,27 @@ class ThRun:
                 f"store={enc_strs(self.inner._storage)}")
 
     def close(self):
+        """observations are over: let every controlled thread run out (forcing completion even if the
+        code under test would wait forever), then restore the real `threading` in history.py"""
         self.s.set_free()
-        for t in self.threads:
-            t.join(10)
-        lt = self.th._load_thread
-        if lt is not None and lt.is_alive():
-            lt.join(10)
+        for n in range(400):
+            alive = [t for t in self.threads if t.is_alive()]
+            lt = self.th._load_thread
+            if lt is not None and lt.is_alive():
+                alive.append(lt)
+            if not alive:
+                break
+            alive[0].join(0.05 if n else 0.3)
+            if alive[0].is_alive():
+                # a consumer that would poll its event forever: finish it from outside
+                if lt is None or not lt.is_alive():
+                    self.th._loaded = True
+                for ev in list(self.th._string_load_events):
+                    ev.set()
         H.threading = self.real_threading
 
 
-def th_impl(case, observer=None):
+def th_impl(case, observer=None, finale=None):
     real_threading = H.threading
     out = []
     r = None
@@ -545,6 +559,8 @@ def th_impl(case, observer=None):
             out.append(r.line())
             if observer:
                 observer(r, op)
+        if finale:
+            finale(r)
     finally:
         if r is not None:
             r.close()
@@ -650,7 +666,7 @@ def file_oracle(case):
         os.unlink(path)
     insts = {}
     segs = []  # (kind, start, end, string)
-    torn_present = False
+    nfresh = [0]
 
     def pattern(ss):
         return [("ok", s[3]) if s[0] == "ok" else ("torn",) for s in ss]
@@ -681,7 +697,9 @@ def file_oracle(case):
         elif k == "fresh":
             got = check_load(path, segs, "fresh load")
             global _THREADED_BROKEN
-            if got is not None and os.path.exists(path) and not _THREADED_BROKEN:
+            nfresh[0] += 1
+            if (got is not None and os.path.exists(path) and not _THREADED_BROKEN
+                    and (len(got) + nfresh[0]) % 3 == 0):
                 # background-thread loading = inline loading (real threads, no schedule)
                 try:
                     tgot = threaded_file_load(path)
@@ -716,6 +734,9 @@ def file_oracle(case):
     return v
 
 
+_TH_HANG = False
+
+
 def th_oracle(case):
     """Property on the real ThreadedHistory under the case's schedule: when a load() call completes,
     it has yielded exactly the inline sequence: reverse(everything stored or inserted so far), every
@@ -744,25 +765,43 @@ def th_oracle(case):
                 state["overlap"] = True
         if not state["was_done"] and r.cthread is not None and "C" in r.s.finished:
             state["was_done"] = True
-            exp = state["inserted"][::-1]
-            got = list(r.out)
-            if got != exp:
-                dup = sorted({x for x in got if got.count(x) > 1})
-                missing = [x for x in exp if x not in got]
-                cond = "no overlapping append" if not state["overlap"] else "append_string overlaps load"
-                if dup:
-                    v.append({"signature": f"ThreadedHistory.load | {cond}: entry yielded twice",
-                              "msg": f"old={case['old']!r} pre={case['pre']!r} schedule={case['ops']!r}: "
-                                     f"yielded {got!r}, inline load gives {exp!r}"})
-                if missing:
-                    v.append({"signature": f"ThreadedHistory.load | {cond}: entry never yielded",
-                              "msg": f"old={case['old']!r} pre={case['pre']!r} schedule={case['ops']!r}: "
-                                     f"yielded {got!r}, inline load gives {exp!r}"})
-                if not dup and not missing:
-                    v.append({"signature": f"ThreadedHistory.load | {cond}: order",
-                              "msg": f"yielded {got!r}, inline load gives {exp!r}"})
+            check_completed(r)
 
-    lines = th_impl(case, observer)
+    def check_completed(r):
+        exp = state["inserted"][::-1]
+        got = list(r.out)
+        if got != exp:
+            dup = sorted({x for x in got if got.count(x) > 1})
+            missing = [x for x in exp if x not in got]
+            cond = "no overlapping append" if not state["overlap"] else "append_string overlaps load"
+            msg = (f"old={case['old']!r} pre={case['pre']!r} schedule={case['ops']!r}: "
+                   f"yielded {got!r}, inline load gives {exp!r}")
+            if dup:
+                v.append({"signature": f"ThreadedHistory.load | {cond}: entry yielded twice", "msg": msg})
+            if missing:
+                v.append({"signature": f"ThreadedHistory.load | {cond}: entry never yielded", "msg": msg})
+            if not dup and not missing:
+                v.append({"signature": f"ThreadedHistory.load | {cond}: order", "msg": msg})
+
+    def finale(r):
+        # whatever the schedule prefix was: from here on all threads run freely (real timing);
+        # a load() call that is in progress must complete, with the right items
+        global _TH_HANG
+        if not r.cons_active() or _TH_HANG:
+            return
+        r.s.set_free()
+        r.cthread.join(8)
+        if r.cthread.is_alive():
+            _TH_HANG = True  # reported once per worker process; do not wait again
+            v.append({"signature": "ThreadedHistory.load | never completes",
+                      "msg": f"old={case['old']!r} pre={case['pre']!r} after schedule {case['ops']!r} the "
+                             f"threads ran freely for 8 s and load() did not finish; yielded {list(r.out)!r}"})
+            return
+        if r.athread is not None:
+            r.athread.join(8)
+        check_completed(r)
+
+    lines = th_impl(case, observer, finale)
     if any(l.startswith("impl-exception") for l in lines):
         v.append({"signature": "ThreadedHistory | exception", "msg": str(lines[-1])})
     return v
@@ -983,13 +1022,17 @@ def label_appends(sched):
 
 
 def th_exhaustive(tier):
+    # (old, pre, depth, max concurrent appends, allow a second load())
     if tier == "quick":
-        plan = [(["o1", "o2"], [], 9, 1), ([], ["p1"], 9, 1), (["o1"], ["p1"], 8, 0)]
+        plan = [([], [], 10, 0, False), ([], ["p1"], 12, 0, False), (["o1", "o2"], [], 14, 0, False),
+                (["o1", "o2"], [], 7, 1, True), ([], ["p1"], 8, 1, True)]
     else:
-        plan = [(["o1", "o2"], [], 12, 1), ([], ["p1"], 12, 1), (["o1"], ["p1"], 12, 1), ([], [], 10, 2),
-                (["o1"], [], 10, 2)]
-    for old, pre, depth, max_app in plan:
-        for sched in all_schedules(len(old) + len(pre), depth, max_app):
+        plan = [([], [], 10, 0, True), ([], ["p1"], 14, 0, True), (["o1", "o2"], [], 14, 0, False),
+                (["o1", "o2"], ["p1"], 18, 0, False),
+                (["o1", "o2"], [], 12, 1, True), ([], ["p1"], 12, 1, True), (["o1"], ["p1"], 12, 1, True),
+                ([], [], 10, 2, True), (["o1"], [], 10, 2, True)]
+    for old, pre, depth, max_app, restarts in plan:
+        for sched in all_schedules(len(old) + len(pre), depth, max_app, restarts):
             yield {"kind": "th", "old": old, "pre": pre, "ops": label_appends(sched)}
 
 
@@ -1024,8 +1067,11 @@ def cases(tier, rng):
     # --- codec
     yield from codec_cases(tier, rng)
     # --- files, exhaustive small scope
-    for s in strings_upto(ALPHA, 3 if quick else 4):
+    for s in strings_upto(ALPHA, 2 if quick else 4):
         yield entries_case([s])
+    if quick:
+        for _ in range(120):
+            yield entries_case(["".join(rng.choice(ALPHA) for _ in range(3))])
     pair = list(strings_upto(ALPHA, 1 if quick else 2))
     for a in pair:
         for b in pair:
@@ -1045,15 +1091,18 @@ def cases(tier, rng):
                                            ["app", 2, "T", "+z\n#"], ["fresh"], ["truncall"],
                                            ["load", 0], ["get", 0], ["get", 1], ["get", 2]]}
     # raw garbage files
-    for k in range(0, (3 if quick else 4) + 1):
-        for tup in itertools.product(RAW_ALPHA[:8] if quick else RAW_ALPHA, repeat=k):
+    for k in range(0, (2 if quick else 4) + 1):
+        for tup in itertools.product(RAW_ALPHA, repeat=k):
             yield {"kind": "file", "ops": [["raw", list(tup)], ["fresh"]]}
+    if quick:
+        for _ in range(150):
+            yield {"kind": "file", "ops": [["raw", [rng.choice(RAW_ALPHA) for _ in range(3)]], ["fresh"]]}
     # --- threaded, exhaustive schedules
     yield from th_exhaustive(tier)
     # --- random
-    for _ in range(400 if quick else 12000):
+    for _ in range(250 if quick else 12000):
         yield rand_file_case(rng)
-    for _ in range(300 if quick else 6000):
+    for _ in range(150 if quick else 6000):
         yield rand_raw_case(rng)
     for _ in range(300 if quick else 8000):
         yield rand_th_case(rng, with_appends=rng.random() < 0.6)
